@@ -1,13 +1,17 @@
 import Driver.ReadCheck
 import SaModel.Spec.TouchRange
+import SaModel.Spec.TouchEq
 /-
 `touchOK` — the run-time specification ingredient of the `corrupt` suite (C17): every slot a successful read of
 target `t` at slot `i` of `a` has to visit lies below the length of the array it belongs to.  The definition is
 the total model function `SaModel.Spec.touchOK` (lean/SaModel/Spec/TouchRange.lean), the one
 `SaModel.Props.C17.readAs_touch_in_range` is about; this file only re-exports it for the driver.
+
+`touchEq` — the footprint relation of `SaModel.Props.C17.untouched_ok` (lean/SaModel/Spec/TouchEq.lean): the corrupted
+view agrees with the base view on what a read of target `t` at slot `i` looks at.  Re-exported the same way.
 -/
 namespace Driver
 
-export SaModel.Spec (touchOK)
+export SaModel.Spec (touchOK touchEq)
 
 end Driver
